@@ -1637,6 +1637,9 @@ class Engine:
                 if callee in ('memcpy', 'memmove', 'memset', 'strcpy', 'strncpy', 'strcat', 'sprintf', 'snprintf',
                               'vsnprintf', 'copy', 'fill'):
                     return True
+                if '_Bit_reference::' in (x.get('callee') or '') and callee in ('operator=', 'flip', 'operator|=',
+                                                                                 'operator&=', 'operator^='):
+                    return True         # a store through the proxy of a std::vector<bool> element
         return False
 
     def loop_(self, n, states, func):
@@ -2552,7 +2555,16 @@ def _up_region(eng, st, ov):
     return UNKNOWN
 
 
+def m_identity(eng, n, st, func, want):
+    """std::move / std::forward: the argument itself"""
+    _, args = _args(eng, n)
+    if len(args) != 1:
+        return None
+    return eng.ev(args[0], st, func)
+
+
 DEFAULT_MODELS = {
+    'std::move': m_identity, 'std::forward': m_identity,
     'strchr': m_strchr, 'std::strchr': m_strchr,
     'memcpy': m_memcpy, 'std::memcpy': m_memcpy, 'memmove': m_memcpy, 'std::memmove': m_memcpy,
     'memset': m_memset, 'std::memset': m_memset,
